@@ -95,7 +95,15 @@ Legal(t, opts) ==
     [] t = "date_range_string" -> opts \cap {"start", "end"} # {}
     [] OTHER -> TRUE
 
-Keys(t, opts) == Required(t) @@ [k \in opts |-> Optional(t)[k]]
+\* "@auto" is not a key but a setting: SetAutoFuzziness(true).  The query types
+\* that carry a fuzziness then emit the STRING "auto" under the key "fuzziness"
+\* instead of a number (fuzzy.go, match.go, match_phrase.go, phrase.go,
+\* multi_phrase.go MarshalJSON), and must come back as the same type with the
+\* setting on: the decision chain may look at the PRESENCE of the key only.
+AutoFuzzTypes == {"fuzzy", "match", "match_phrase", "phrase", "multi_phrase"}
+Keys(t, opts) ==
+  LET k == Required(t) @@ [x \in (opts \ {"@auto"}) |-> Optional(t)[x]]
+  IN IF "@auto" \in opts THEN [x \in DOMAIN k |-> IF x = "fuzziness" THEN "str" ELSE k[x]] ELSE k
 
 \* ------------------------------------------------ ParseQuery's decision chain
 Has(keys, k) == k \in DOMAIN keys
@@ -137,7 +145,7 @@ Dispatch(keys) ==
 \* equivalent DateRangeStringQuery
 EquivalentTypes(t) == IF t = "date_range" THEN {"date_range_string"} ELSE {t}
 
-LegalOpts(t) == {o \in SUBSET (DOMAIN Optional(t)) : Legal(t, o)}
+LegalOpts(t) == {o \in SUBSET (DOMAIN Optional(t) \cup (IF t \in AutoFuzzTypes THEN {"@auto"} ELSE {})) : Legal(t, o)}
 
 \* ------------------------------------------------------------ query trees
 \* node = [type, opts, min, kids]; kids = sequence of [role, node]; role is
